@@ -430,6 +430,9 @@ class Unit:
         body_text = s.text[loc['body_open']:loc['body_close'] + 1]
         if loc.get('span'):
             body_text = '{\n' + body_text + '\n}'
+        if 'prefix' in opts:
+            # the block is a struct-literal body: re-attach the type name and make it the function's value
+            body_text = '{ ' + opts['prefix'] + ' ' + body_text + ' }'
         sig_new = self.apply_rules(sig_text, rec, sigsubs)
         if emitted_name != fn:
             sig_new = re.sub(r'\bfn\s+%s\b' % re.escape(fn), 'fn ' + emitted_name, sig_new, count=1)
